@@ -154,6 +154,20 @@ impl Check for Convergence {
                 jobj! {"role" => role, "send_max" => 1u64, "addpath_rx" => rng.chance(1, 4), "ext_msg" => rng.coin()}
             })
             .collect();
+        // sources that negotiated graceful restart (and long-lived GR): their routes stay, stale and
+        // then LLGR-stale, after a crash - attributes of unchanged paths change under the observers
+        let sources: Vec<Json> = sources
+            .into_iter()
+            .map(|mut s| {
+                if rng.chance(1, 4) {
+                    s.set("gr", jarr![5u64, false]);
+                    if rng.chance(2, 3) {
+                        s.set("llgr", Json::from(30u64));
+                    }
+                }
+                s
+            })
+            .collect();
         let observers: Vec<Json> = (0..n_obs)
             .map(|_| {
                 let role = *rng.pick(roles);
@@ -223,7 +237,7 @@ impl Check for Convergence {
                     ops.push(jarr!["wd", s, rng.below(n_pfx), pid, fam]);
                 }
                 2 => ops.push(jarr!["win", o, rng.coin()]),
-                3 => ops.push(jarr!["wait", *rng.pick(&[1u64, 10, 100, 1000, 20000])]),
+                3 => ops.push(jarr!["wait", *rng.pick(&[1u64, 10, 100, 1000, 6000, 20000])]),
                 4 => {
                     ops.push(jarr!["down", s, rng.below(2)]);
                     if rng.chance(2, 3) {
@@ -279,7 +293,7 @@ impl Check for Convergence {
 
     fn info(&self) -> CheckInfo {
         CheckInfo {
-            rule: "1-3 source speakers (roles eBGP/iBGP/RR-client/RS-client/confed, optional add-path towards the DUT) and 1-2 observers (any role, send-max 1-3) on real sessions; history of announce / replace / withdraw / source crash (FIN, RST) / reconnect / route-refresh / next-hop flap (the kernel reports a next hop in use unreachable, later reachable; a third of the runs) over 2-8 prefixes; in a third of the runs every session also carries IPv6 unicast and announcements, withdrawals and refreshes are spread over both families; in half of the runs the operator originates and deletes routes through the AddPath / DeletePath handlers (path identifiers 0-2, so one prefix can hold several local paths; with and without an explicit next hop); in 3 of 5 runs a global export policy (reject community 65000:1, set MED on the rest) so that a replacement can make a route non-exportable, in 2 of 5 also the global export policy, the global import policy and one observer's own export policy (and its twin's) added and deleted through the gRPC handlers during the history, each switch followed by the operator's soft reset (out towards the observers, in for the sources); the observer's receive window is opened and closed by the schedule, pipes have seeded latency, fragmentation and capacity, 1-3 shards. At check points: windows opened, quiescence, an identically configured twin connects and receives its initial dump; mirror(observer) must equal mirror(twin) (prefix, path id, attributes, next hop). non-trivial = at least one RIB change was delivered to an observer while its window was closed, or a check compared a non-empty mirror; distinct = hash of the seam-event sequence (which connection read/wrote how much, in order)".into(),
+            rule: "1-3 source speakers (roles eBGP/iBGP/RR-client/RS-client/confed, optional add-path towards the DUT) and 1-2 observers (any role, send-max 1-3) on real sessions; history of announce / replace / withdraw / source crash (FIN, RST; a quarter of the sources negotiated GR, most of those LLGR, so their routes stay as stale and LLGR-stale paths) / reconnect / route-refresh / next-hop flap (the kernel reports a next hop in use unreachable, later reachable; a third of the runs) over 2-8 prefixes; in a third of the runs every session also carries IPv6 unicast and announcements, withdrawals and refreshes are spread over both families; in half of the runs the operator originates and deletes routes through the AddPath / DeletePath handlers (path identifiers 0-2, so one prefix can hold several local paths; with and without an explicit next hop); in 3 of 5 runs a global export policy (reject community 65000:1, set MED on the rest) so that a replacement can make a route non-exportable, in 2 of 5 also the global export policy, the global import policy and one observer's own export policy (and its twin's) added and deleted through the gRPC handlers during the history, each switch followed by the operator's soft reset (out towards the observers, in for the sources); the observer's receive window is opened and closed by the schedule, pipes have seeded latency, fragmentation and capacity, 1-3 shards. At check points: windows opened, quiescence, an identically configured twin connects and receives its initial dump; mirror(observer) must equal mirror(twin) (prefix, path id, attributes, next hop). non-trivial = at least one RIB change was delivered to an observer while its window was closed, or a check compared a non-empty mirror; distinct = hash of the seam-event sequence (which connection read/wrote how much, in order)".into(),
             components_real: vec!["accept_connection, PeerSession::{run,session_loop,run_select,rx_msg,rx_update,handle_prefix_update,do_route_refresh,on_established,flush_tx}".into(), "export::process_nlri_change, ExportMap, peer_tx::PendingTx".into(), "TableManager, table::Table".into(), "fsm::PeerFsm, packet::PeerCodec (both directions)".into(), "GrpcService::{start_bgp, add_path, delete_path, local_path, add_policy_assignment, delete_policy_assignment, reset_peer}".into()],
             components_stubbed: vec!["TCP, clock, listener/dispatch loop, remote speakers (scripted; decode with the repository codec negotiated from their side + an independent frame walker)".into()],
             assumptions: vec!["observers and twins announce nothing, so echo suppression cannot differ between them".into(), "a mirror bug shared by encoder and decoder is invisible (framing is checked independently)".into()],
